@@ -17,6 +17,8 @@ THEOREMS = [
     "TornadoModel.C23.roundtrip",
     "TornadoModel.C23.decode_sound_v2",
     "TornadoModel.C23.decode_sound_v1",
+    "TornadoModel.C23.accepted_shape_v2",
+    "TornadoModel.C23.decode_sound",
     "TornadoModel.C23.wrong_name_rejected_v2",
     "TornadoModel.C23.expired_rejected",
     "TornadoModel.C23.min_version_respected",
@@ -50,7 +52,7 @@ RULE = ("create+decode cases over both formats and both secret forms with one mu
 EXHAUSTIVE = {"quick": False, "thorough": False}
 CLAUSES = {
     "decoding with the same secret and name within max_age_days returns the original value": "roundtrip (roundtrip_v1, roundtrip_v2, created_version, spec_accept_sound)",
-    "any modification of a signed value -> None": "decode_sound_v2/_v1 + v2_tosign_injective (modulo H); tie: every single-byte edit enumerated; v1: v1_tosign_injective_refuted (known finding D5)",
+    "any modification of a signed value -> None": "decode_sound, decode_sound_v2/_v1, accepted_shape_v2 + v2_tosign_injective (modulo H); tie: every single-byte edit enumerated; v1: v1_tosign_injective_refuted (known finding D5)",
     "a different name -> None": "wrong_name_rejected_v2; decode_sound_v1 (modulo H)",
     "a different secret or key version -> None": "decode_sound_v2/_v1 (accepted => signature made with the verifier's key for that version)",
     "an expired timestamp -> None": "expired_rejected",
